@@ -10,6 +10,8 @@ import (
 	"sort"
 	"strconv"
 	"strings"
+	"sync"
+	"sync/atomic"
 
 	"github.com/ethereum/go-ethereum/p2p/enode"
 	"github.com/ethereum/go-ethereum/p2p/enr"
@@ -250,6 +252,46 @@ func runFindNodes(o *Out, r *rand.Rand, thorough bool, _ []string) {
 				ids = []string{"-"}
 			}
 			o.Case(input, fmt.Sprintf("len=%d total=%d ids=%s", len(resp), msg.Total, strings.Join(ids, ",")))
+		}
+		// several askers at once (discv5 runs every TALKREQ in a goroutine of its own), each asking for ONE distance of its own:
+		// every record of every reply lies at the distance that reply was asked for
+		{
+			wantDists := []uint{256, 255, 254, 253, 252, 0}
+			reps := 150
+			if thorough {
+				reps = 2000
+			}
+			var badRecs, badReplies int64
+			var wg sync.WaitGroup
+			selfID := nd.p.Self().ID()
+			for _, d := range wantDists {
+				wg.Add(1)
+				go func(d uint) {
+					defer wg.Done()
+					req := &portalwire.FindNodes{Distances: [][2]byte{{byte(d), byte(d >> 8)}}}
+					for k := 0; k < reps; k++ {
+						resp, err := nd.p.VerifHandleFindNodes(&net.UDPAddr{IP: net.IP{192, 168, 1, 5}, Port: 4000}, req)
+						msg := &portalwire.Nodes{}
+						if err != nil || len(resp) == 0 || resp[0] != portalwire.NODES || msg.UnmarshalSSZ(resp[1:]) != nil {
+							atomic.AddInt64(&badReplies, 1)
+							continue
+						}
+						for _, e := range msg.Enrs {
+							rec := &enr.Record{}
+							if rlp.DecodeBytes(e, rec) != nil {
+								atomic.AddInt64(&badRecs, 1)
+								continue
+							}
+							n2, err := enode.New(enode.ValidSchemes, rec)
+							if err != nil || uint(enode.LogDist(selfID, n2.ID())) != d {
+								atomic.AddInt64(&badRecs, 1)
+							}
+						}
+					}
+				}(d)
+			}
+			wg.Wait()
+			o.Case(fmt.Sprintf("concfindnodes workers=%d reps=%d", len(wantDists), reps), fmt.Sprintf("badreplies=%d badrecords=%d", badReplies, badRecs))
 		}
 		nd.stop()
 	}
